@@ -390,6 +390,21 @@ func (k *Checker) postCall(n *Node, ctx *callCtx) {
 	k.trackState(n, &pre, &n.st, ctx)
 }
 
+// refreshAfterStorageChange re-reads the node's state after the application
+// changed the storage underneath raft (compaction), so that the next step's
+// "pre" state is accurate.
+func (k *Checker) refreshAfterStorageChange(n *Node) {
+	if !n.up || n.rn == nil || k.c.viol != nil {
+		return
+	}
+	ok := k.c.guard(n, "VerifState", func() error { n.st = n.rn.VerifState(); return nil })
+	if !ok {
+		n.up, n.rn = false, nil
+		return
+	}
+	k.refreshLog(n, &n.st, true)
+}
+
 // afterAction runs once per executed action.
 func (k *Checker) afterAction(a Action, ok bool) {
 	c := k.c
